@@ -831,6 +831,63 @@ fn gen_supertype_pairs(rng: &mut Rng, g: &QGen, nodes: &[&Node]) -> Option<Strin
     Some(q)
 }
 
+/// Family 11: `(parent field: (kind))` for (parent, field, kind) triples OBSERVED in this tree (fields may be
+/// inherited through hidden rules that carry several fields): each must compile and match.  1-3 patterns,
+/// one or two fielded children each.
+fn gen_field_triples(rng: &mut Rng, g: &QGen, nodes: &[&Node]) -> Option<String> {
+    let mut triples: Vec<(Node, Vec<(String, Node)>)> = Vec::new();
+    for n in nodes.iter() {
+        if n.is_error() || n.is_missing() {
+            continue;
+        }
+        let mut c = n.walk();
+        let mut fs = Vec::new();
+        if c.goto_first_child() {
+            loop {
+                if let Some(f) = c.field_name() {
+                    let k = c.node();
+                    if !k.is_error() && !k.is_missing() {
+                        fs.push((f.to_string(), k));
+                    }
+                }
+                if !c.goto_next_sibling() {
+                    break;
+                }
+            }
+        }
+        if !fs.is_empty() {
+            triples.push((**n, fs));
+        }
+    }
+    if triples.is_empty() {
+        return None;
+    }
+    let simple = |x: &Node| if x.is_named() { format!("({})", x.kind()) } else { quote(x.kind()) };
+    let mut q = String::new();
+    for _ in 0..(1 + rng.below(3)) {
+        let (p, fs) = rng.pick(&triples);
+        let i = rng.below(fs.len());
+        let mut s = format!("({} {}: {}", p.kind(), fs[i].0, simple(&fs[i].1));
+        if rng.chance(1, 2) {
+            s.push_str(&g.capture(rng));
+        }
+        if i + 1 < fs.len() && rng.chance(1, 3) {
+            let j = rng.range(i + 1, fs.len() - 1);
+            s.push_str(&format!(" {}: {}", fs[j].0, simple(&fs[j].1)));
+            if rng.chance(1, 2) {
+                s.push_str(&g.capture(rng));
+            }
+        }
+        s.push(')');
+        if rng.chance(1, 3) {
+            s.push_str(&g.capture(rng));
+        }
+        q.push_str(&s);
+        q.push('\n');
+    }
+    Some(q)
+}
+
 fn gen_query(rng: &mut Rng, g: &mut QGen, tree: &Tree) -> Option<String> {
     let nodes = all_nodes(tree);
     let named: Vec<&Node> = nodes.iter().filter(|n| n.is_named() && !n.is_missing()).collect();
@@ -859,7 +916,7 @@ fn gen_query(rng: &mut Rng, g: &mut QGen, tree: &Tree) -> Option<String> {
             }
         }
     }
-    match rng.below(17) {
+    match rng.below(19) {
         0 => {
             if let Some(q) = gen_negated_family(rng, g, &named) {
                 return Some(q);
@@ -893,6 +950,12 @@ fn gen_query(rng: &mut Rng, g: &mut QGen, tree: &Tree) -> Option<String> {
         10 => {
             let all: Vec<&Node> = nodes.iter().collect();
             if let Some(q) = gen_root_alt(rng, g, &all) {
+                return Some(q);
+            }
+        }
+        15 | 16 => {
+            let all: Vec<&Node> = nodes.iter().collect();
+            if let Some(q) = gen_field_triples(rng, g, &all) {
                 return Some(q);
             }
         }
@@ -1238,12 +1301,12 @@ fn main() {
     let only: Vec<String> = args[2..].to_vec();
     let mut rng = Rng::new(seed_from_env());
     let thorough = tier_is_thorough();
-    let default_langs = ["lst", "arith", "jsonish", "stmt", "fx_readme_grammar", "fx_aliased_rules", "fx_inline_rules", "fx_extra_non_terminals", "fx_immediate_tokens", "fx_aliased_inlined_rules", "pairs", "zsup"];
+    let default_langs = ["lst", "arith", "jsonish", "stmt", "fx_readme_grammar", "fx_aliased_rules", "fx_inline_rules", "fx_extra_non_terminals", "fx_immediate_tokens", "fx_aliased_inlined_rules", "pairs", "zsup", "twofld", "zzfld"];
     let langs: Vec<String> = if !only.is_empty() {
         only
     } else if thorough {
         // a fixed list (the zoo grows while other properties are built; a check must not change with it)
-        let allow: &[&str] = &["arith","fx_aliased_inlined_rules","fx_aliased_rules","fx_aliased_token_rules","fx_aliased_unit_reductions","fx_anonymous_error","fx_associativity_left","fx_associativity_right","fx_depends_on_column","fx_dynamic_precedence","fx_epsilon_external_tokens","fx_external_and_internal_tokens","fx_external_tokens","fx_external_unicode_column_alignment","fx_extra_non_terminals","fx_extra_non_terminals_with_shared_rules","fx_immediate_tokens","fx_inline_rules","fx_inlined_aliased_rules","fx_lexical_conflicts_due_to_state_merging","fx_named_rule_aliased_as_anonymous","fx_nested_inlined_rules","fx_next_sibling_from_zwt","fx_precedence_on_subsequence","fx_readme_grammar","fx_reserved_words","fx_unicode_classes","jsonish","lst","stmt","pairs","zsup"];
+        let allow: &[&str] = &["arith","fx_aliased_inlined_rules","fx_aliased_rules","fx_aliased_token_rules","fx_aliased_unit_reductions","fx_anonymous_error","fx_associativity_left","fx_associativity_right","fx_depends_on_column","fx_dynamic_precedence","fx_epsilon_external_tokens","fx_external_and_internal_tokens","fx_external_tokens","fx_external_unicode_column_alignment","fx_extra_non_terminals","fx_extra_non_terminals_with_shared_rules","fx_immediate_tokens","fx_inline_rules","fx_inlined_aliased_rules","fx_lexical_conflicts_due_to_state_merging","fx_named_rule_aliased_as_anonymous","fx_nested_inlined_rules","fx_next_sibling_from_zwt","fx_precedence_on_subsequence","fx_readme_grammar","fx_reserved_words","fx_unicode_classes","jsonish","lst","stmt","pairs","zsup","twofld","zzfld"];
         zoo::list().into_iter().filter(|l| allow.contains(&l.as_str())).collect()
     } else {
         default_langs.iter().map(|s| s.to_string()).filter(|s| zoo::zoo_dir(s).join("grammar.json").exists()).collect()
